@@ -37,6 +37,7 @@ type gcCase struct {
 	Wrap       bool   `json:"storage_wrapper"`
 	SkipLocal  bool   `json:"skip_verification_by_local_caller"`
 	EmptyNonce bool   `json:"empty_nonce"`
+	PkixBy     *int   `json:"request_key_of,omitempty"` // signer code whose key the request names as certificate key (default: the nonce signer's)
 }
 
 func permutations(n int) [][]int {
@@ -133,6 +134,17 @@ func runGCCase(c *engine.Ctx, gc gcCase) {
 		req.CertificatePublicKeyPkix = recs[0].K.Pkix
 	default:
 		req.CertificatePublicKeyPkix = unreg.Pkix
+	}
+	if gc.PkixBy != nil && gc.Path == "nodeid" {
+		// on the node-ID path the certificate key named in the request is bound to nothing in storage
+		switch code := *gc.PkixBy; {
+		case code >= 0 && code < len(recs):
+			req.CertificatePublicKeyPkix = recs[code].K.Pkix
+		case code == -1:
+			req.CertificatePublicKeyPkix = other.Node.K.Pkix
+		case code == -2:
+			req.CertificatePublicKeyPkix = unreg.Pkix
+		}
 	}
 	if gc.Path != "keyid" {
 		req.NodeId = "N"
@@ -277,6 +289,19 @@ func runGenCerts(c *engine.Ctx) engine.Result {
 			}
 		}
 	}
+	// node-ID path: the request names the key of the state signer (or another key) instead of the nonce signer's
+	ip := func(i int) *int { return &i }
+	for m := 1; m <= 3; m++ {
+		for _, ord := range permutations(m) {
+			for nb := 0; nb < m; nb++ {
+				for _, sb := range []int{-1, -2} {
+					cases = append(cases, gcCase{Path: "nodeid", Records: m, Order: ord, NonceBy: nb, State: true, StateBy: sb, PkixBy: ip(sb)})
+				}
+				cases = append(cases, gcCase{Path: "nodeid", Records: m, Order: ord, NonceBy: nb, State: true, StateBy: nb, PkixBy: ip(-2)})
+				cases = append(cases, gcCase{Path: "nodeid", Records: m, Order: ord, NonceBy: -2, PkixBy: ip(nb)})
+			}
+		}
+	}
 	// zero records under the node id
 	for _, nb := range []int{-1, -2, -3, -4} {
 		cases = append(cases, gcCase{Path: "nodeid", Records: 0, Order: []int{}, NonceBy: nb})
@@ -311,6 +336,10 @@ func runGenCerts(c *engine.Ctx) engine.Result {
 			return -1 - rng.Intn(4)
 		}
 		gc := gcCase{Path: "nodeid", Records: m, Order: ord, NonceBy: pick(), Wrap: rng.Intn(4) == 0}
+		if rng.Intn(3) == 0 {
+			v := pick()
+			gc.PkixBy = &v
+		}
 		if rng.Intn(2) == 0 {
 			gc.State, gc.StateBy = true, pick()
 			if rng.Intn(2) == 0 {
